@@ -14,6 +14,10 @@ import EdzedProofs.IntervalTables
 import EdzedProofs.IntervalString
 import EdzedProofs.IntervalNotations
 import EdzedProofs.IntervalTie
+import EdzedProofs.IntervalOrders
+import EdzedProofs.IntervalTimeText
+import EdzedProofs.IntervalWeekdays
+import EdzedProofs.IntervalSummary
 import EdzedModel.Gen.Constants
 import EdzedModel.Gen.Translated
 
@@ -390,6 +394,85 @@ theorem datetime_notation_traditional_any_case (a b c : Char) (ha : isAlpha a = 
   convertStr_datetime_of_stripped (trad_clean a b c ha hb hc h).1 (trad_clean a b c ha hb hc h).2
     (trad_core a b c ha hb hc hT h hm)
 
+
+/-! ### date-time notations whose parts come in any order; dashed dates; ISO basic; hour only (round 8) -/
+
+/-- docs 1A "YYYY month day time-of-day … the listed parts may be given in any order": the year (four digits), the
+    month name (three letters `a b c` that `_name_to_month` maps to the month), the day of the month (`D` or `DD`)
+    and the time of day in ANY colon notation (`H:M`, `HH:MM`, `H:M:S`, `HH:MM:SS`, with a fraction of 1..6 digits
+    after `.` or `,`, or `str(time)`), separated by blanks, in every one of the 24 orders, denote that date-time -/
+theorem datetime_parts_in_any_order (a b c : Char) (ha : isAlpha a = true) (hb : isAlpha b = true)
+    (hc : isAlpha c = true) (hT : a ≠ 'T' ∧ b ≠ 'T' ∧ c ≠ 'T') {y mo d : Nat} {tm : Ep} {tt : List Char}
+    (ht : ColonTime tt tm) (hv : validDateTime ([y, mo, d] ++ tm) = true)
+    (hm : nameToMonth [a, b, c] = some mo) (dtok : List Char) (hd : dtok ∈ dayTokens d) :
+    ∀ ts ∈ perms [tt, pad 4 y, [a, b, c], dtok], convertStr .datetime (joinSp ts) = .ok ([y, mo, d] ++ tm) :=
+  datetime_any_order a b c ha hb hc hT ht.timeText ht.convert hv hm dtok hd
+
+/-- the same for ANY text that `_RE_TIME` matches as a whole and `convert_time_str` accepts -/
+theorem datetime_parts_in_any_order_any_time (a b c : Char) (ha : isAlpha a = true) (hb : isAlpha b = true)
+    (hc : isAlpha c = true) (hT : a ≠ 'T' ∧ b ≠ 'T' ∧ c ≠ 'T') {y mo d : Nat} {tm : Ep} {tt : List Char}
+    (ht : TimeText tt) (hct : convertStr .time tt = .ok tm) (hv : validDateTime ([y, mo, d] ++ tm) = true)
+    (hm : nameToMonth [a, b, c] = some mo) (dtok : List Char) (hd : dtok ∈ dayTokens d) :
+    ∀ ts ∈ perms [tt, pad 4 y, [a, b, c], dtok], convertStr .datetime (joinSp ts) = .ok ([y, mo, d] ++ tm) :=
+  datetime_any_order a b c ha hb hc hT ht hct hv hm dtok hd
+
+/-- every time of day has colon notations (so the theorems above are about all endpoints): the canonical one,
+    and `H:M` / `H:M:S` when the lower fields are zero -/
+theorem colon_time_exists {e : Ep} (h : validTime e = true) : ColonTime (renderTime e) e := .canonical h
+
+/-- `perms` lists every order: each permutation of the parts occurs in it -/
+theorem perms_complete {α : Type} [DecidableEq α] (l ts : List α) (h : ts.Perm l) : ts ∈ perms l := by
+  induction l generalizing ts with
+  | nil => simp [List.perm_nil.mp h, perms]
+  | cons x xs ih =>
+    have hx : x ∈ ts := h.symm.subset (by simp)
+    obtain ⟨pre, post, rfl⟩ := List.append_of_mem hx
+    have hp : (pre ++ post).Perm xs := by
+      have := (List.perm_middle (a := x) (l₁ := pre) (l₂ := post)).symm.trans h |>.symm
+      exact (List.Perm.cons_inv (this.symm))
+    simp only [perms, List.mem_flatMap]
+    refine ⟨pre ++ post, ih _ hp, ?_⟩
+    clear ih hp h hx
+    induction pre with
+    | nil => cases post <;> simp [insertAll]
+    | cons p ps ihp => simp only [List.cons_append, insertAll, List.mem_cons, List.mem_map]; right; exact ⟨_, ihp, rfl⟩
+
+/-- `YYYY-MM-DD` or `YYYY-mon-DD` (three letters) before or after the time of day (any colon notation) -/
+theorem datetime_notation_dashed (a b c : Char) (ha : isAlpha a = true) (hb : isAlpha b = true)
+    (hc : isAlpha c = true) (hT : a ≠ 'T' ∧ b ≠ 'T' ∧ c ≠ 'T') {y mo d : Nat} {tm : Ep} {tt : List Char}
+    (ht : ColonTime tt tm) (hv : validDateTime ([y, mo, d] ++ tm) = true) (hm : nameToMonth [a, b, c] = some mo) :
+    ∀ Z ∈ [ymdNum y mo d, ymdName a b c y d], ∀ ts ∈ [[tt, Z], [Z, tt]],
+      convertStr .datetime (joinSp ts) = .ok ([y, mo, d] ++ tm) := by
+  intro Z hZ ts hts
+  simp only [List.mem_cons, List.not_mem_nil, or_false] at hZ
+  exact datetime_dashed a b c ha hb hc hT ht.timeText ht.convert hv hm Z hZ ts (by simpa [insertAll] using hts)
+
+/-- the year, then `--MMDD` or `--MM-DD`, the time of day before, between or after them -/
+theorem datetime_notation_year_isoMD {y mo d : Nat} {tm : Ep} {tt : List Char} (ht : ColonTime tt tm)
+    (hv : validDateTime ([y, mo, d] ++ tm) = true) :
+    ∀ Z ∈ [isoMD mo d, isoMDd mo d], ∀ ts ∈ [[tt, pad 4 y, Z], [pad 4 y, tt, Z], [pad 4 y, Z, tt]],
+      convertStr .datetime (joinSp ts) = .ok ([y, mo, d] ++ tm) := by
+  intro Z hZ ts hts
+  simp only [List.mem_cons, List.not_mem_nil, or_false] at hZ
+  exact datetime_year_isoMD ht.timeText ht.convert hv Z hZ ts (by simpa [insertAll] using hts)
+
+/-- ISO 8601 through `datetime.fromisoformat`: extended `YYYY-MM-DD` or basic `YYYYMMDD` date, `T`, and ANY ISO time
+    (`HH`, `HH:MM`, `HHMM`, `HH:MM:SS`, `HHMMSS`, the last two with a fraction of 1..6 digits after `.` or `,`) -/
+theorem datetime_notation_iso {y mo d : Nat} {tm : Ep} {t : List Char} (ht : IsoTime t tm)
+    (hv : validDateTime ([y, mo, d] ++ tm) = true) :
+    ∀ D ∈ [ymdNum y mo d, ymdBasic y mo d], convertStr .datetime (D ++ 'T' :: t) = .ok ([y, mo, d] ++ tm) := by
+  intro D hD
+  simp only [List.mem_cons, List.not_mem_nil, or_false] at hD
+  exact iso_datetime ht.text hv D hD
+
+/-- a time given as the hour only: `HH` and `THH` mean that hour at :00:00, for all 24 hours; 24..99 and a single
+    digit (`7`, `T7`) are rejected -/
+theorem time_notation_hour_only :
+    (∀ h, h < 24 → convertStr .time (pad 2 h) = .ok [h, 0, 0, 0] ∧ convertStr .time ('T' :: pad 2 h) = .ok [h, 0, 0, 0]) ∧
+    (∀ h, 24 ≤ h → h < 100 → convertStr .time (pad 2 h) = .err .value ∧ convertStr .time ('T' :: pad 2 h) = .err .value) ∧
+    (∀ x, isDigit x = true → convertStr .time [x] = .err .value ∧ convertStr .time ['T', x] = .err .value) :=
+  ⟨fun _ hh => time_hour_only hh, fun _ h1 h2 => time_hour_24_rejected h1 h2, time_single_digit_rejected⟩
+
 /-! ### rejection of malformed input -/
 
 /-- no notation whatsoever – string or integers – yields an endpoint with an out-of-range field
@@ -505,6 +588,156 @@ theorem weekdays_normal_form {l : List Int} {w : List Nat} (h : parseWeekdays (.
         · exact ⟨by simp, 0, hm, by simp⟩
   · cases h
 
+
+/-- a weekday STRING means the sequence of its digits (blanks and tabs skipped) -/
+theorem weekday_string_is_digit_sequence {s : List Char} (ha : asciiOk s = true)
+    (hd : ∀ c ∈ s, c = ' ' ∨ c = '\t' ∨ isDigit c = true) :
+    parseWeekdays (.str s) = parseWeekdays (.ints (wdDigits s)) := parseWeekdays_str_digits ha hd
+
+/-- … and any other character (ASCII) makes it a ValueError; so do the digits 8 and 9 -/
+theorem weekday_string_rejected {s : List Char} (ha : asciiOk s = true) :
+    ((∃ c ∈ s, c ≠ ' ' ∧ c ≠ '\t' ∧ isDigit c = false) → parseWeekdays (.str s) = .err .value) ∧
+    ((∀ c ∈ s, c = ' ' ∨ c = '\t' ∨ isDigit c = true) → (∃ c ∈ s, isDigit c = true ∧ 8 ≤ dval c) →
+      parseWeekdays (.str s) = .err .value) := by
+  refine ⟨parseWeekdays_str_nondigit ha, fun hd ⟨c, hc, hcd, h8⟩ => ?_⟩
+  rw [parseWeekdays_str_digits ha hd]
+  apply weekday_out_of_range_rejected
+  refine ⟨Int.ofNat (dval c), ?_, Or.inr (by simp; omega)⟩
+  simp only [wdDigits, wdChars, List.mem_map, List.mem_filter]
+  refine ⟨c, ⟨hc, ?_⟩, rfl⟩
+  have p := isDigit_props hcd
+  have h1 : (c == ' ') = false := by
+    rw [beq_eq_false_iff_ne]; intro e; rw [e] at hcd; revert hcd; decide
+  have h2 : (c == '\t') = false := by
+    rw [beq_eq_false_iff_ne]; intro e; rw [e] at hcd; revert hcd; decide
+  simp [h1, h2]
+
+/-- what a string over `0`..`7` (with blanks/tabs) means: the set of the weekdays whose digit occurs in it, `0`
+    standing for 7 – sorted, without duplicates -/
+theorem weekday_string_meaning {s : List Char}
+    (hs : ∀ c ∈ s, c = ' ' ∨ c = '\t' ∨ (isDigit c = true ∧ dval c ≤ 7)) :
+    ∃ w, parseWeekdays (.str s) = .ok w ∧ w.Pairwise (· < ·) ∧
+      ∀ d, d ∈ w ↔ (1 ≤ d ∧ d ≤ 7 ∧ (digitChar d ∈ s ∨ (d = 7 ∧ '0' ∈ s))) := by
+  have ha : asciiOk s = true := by
+    simp only [asciiOk, List.all_eq_true]
+    intro c hc
+    rcases hs c hc with rfl | rfl | ⟨h, -⟩
+    · decide
+    · decide
+    · exact (isDigit_props h).2.1
+  have hd : ∀ c ∈ s, c = ' ' ∨ c = '\t' ∨ isDigit c = true := fun c hc => by
+    rcases hs c hc with h | h | h
+    · exact Or.inl h
+    · exact Or.inr (Or.inl h)
+    · exact Or.inr (Or.inr h.1)
+  have hmem : ∀ n : Nat, n ≤ 7 → ((n : Int) ∈ wdDigits s ↔ digitChar n ∈ s) := by
+    intro n hn
+    simp only [wdDigits, wdChars, List.mem_map, List.mem_filter]
+    constructor
+    · rintro ⟨c, ⟨hc, hnb⟩, he⟩
+      rcases hs c hc with rfl | rfl | ⟨hcd, -⟩
+      · simp at hnb
+      · simp at hnb
+      · have : dval c = n := Int.ofNat.inj he
+        rw [← this, ← char_of_dval hcd]; exact hc
+    · intro hc
+      refine ⟨digitChar n, ⟨hc, ?_⟩, ?_⟩
+      · have h1 : (digitChar n == ' ') = false := by
+          rw [beq_eq_false_iff_ne]; exact digitChar_ne_blank n
+        have h2 : (digitChar n == '\t') = false := by
+          rw [beq_eq_false_iff_ne]; intro e
+          have := isDigit_digitChar n; rw [e] at this; revert this; decide
+        simp [h1, h2]
+      · simp only [dval_digitChar]
+        have : n % 10 = n := by omega
+        rw [this]; rfl
+  have hall : (wdDigits s).all (fun x => decide (0 ≤ x) && decide (x ≤ 7)) = true := by
+    simp only [wdDigits, wdChars, List.all_eq_true, List.mem_map, List.mem_filter]
+    rintro x ⟨c, ⟨hc, hnb⟩, rfl⟩
+    rcases hs c hc with rfl | rfl | ⟨-, h7⟩
+    · simp at hnb
+    · simp at hnb
+    · simp; omega
+  have hok : ∃ w, parseWeekdays (.ints (wdDigits s)) = .ok w := by
+    simp only [parseWeekdays, weekdaysOfInts, hall, ↓reduceIte]; exact ⟨_, rfl⟩
+  obtain ⟨w, hw⟩ := hok
+  refine ⟨w, by rw [parseWeekdays_str_digits ha hd, hw], ?_⟩
+  obtain ⟨h1, h2⟩ := weekdays_normal_form hw
+  refine ⟨h1, fun d => ?_⟩
+  rw [h2 d]
+  constructor
+  · rintro ⟨a1, a2, h | ⟨rfl, h⟩⟩
+    · exact ⟨a1, a2, Or.inl ((hmem d a2).1 h)⟩
+    · exact ⟨a1, a2, Or.inr ⟨rfl, by simpa [digitChar] using (hmem 0 (by omega)).1 h⟩⟩
+  · rintro ⟨a1, a2, h | ⟨rfl, h⟩⟩
+    · exact ⟨a1, a2, Or.inl ((hmem d a2).2 h)⟩
+    · refine ⟨a1, a2, Or.inr ⟨rfl, (hmem 0 (by omega)).2 ?_⟩⟩
+      simpa [digitChar] using h
+
+/-- order and duplicates are irrelevant, and 0 ≡ 7: two sequences with the same members give the same result;
+    replacing every 0 by 7 changes nothing -/
+theorem weekdays_order_duplicates_irrelevant (l1 l2 : List Int) (h : ∀ x, x ∈ l1 ↔ x ∈ l2) :
+    parseWeekdays (.ints l1) = parseWeekdays (.ints l2) ∧
+    parseWeekdays (.ints (l1.map fun x => if x = 0 then 7 else x)) = parseWeekdays (.ints l1) :=
+  ⟨weekdaysOfInts_congr l1 l2 h, weekdaysOfInts_fold l1⟩
+
+/-- export ∘ parse is idempotent: the exported weekday list (of a string or a sequence) parses to itself -/
+theorem weekdays_export_idempotent {x : WdIn} {w : List Nat} (h : parseWeekdays x = .ok w) :
+    parseWeekdays (.ints (w.map Int.ofNat)) = .ok w := by
+  have key : ∀ l : List Int, weekdaysOfInts l = .ok w → weekdaysOfInts (w.map Int.ofNat) = .ok w := by
+    intro l hl
+    obtain ⟨p, rfl⟩ := weekdaysOfInts_eq_ok hl
+    exact weekdaysOfInts_export p
+  cases x with
+  | ints l => exact key l h
+  | str s =>
+    simp only [parseWeekdays] at h
+    split at h
+    · cases h
+    · split at h
+      · exact key _ h
+      · cases h
+
+
+/-! ### the property in its own words: all notations of one interval mean the same -/
+
+/-- Two specifications whose ranges are written in ANY notation of the endpoints proved above or in the earlier
+    rounds (`convert k n = .ok e` is what every notation theorem establishes: canonical / padded / `H:M` / `H:M:S` /
+    fractions / ISO basic and extended / hour only; the 13 date notations of all 366 days; date-times canonical, ISO
+    extended and basic with any ISO time, traditional with the parts in any order, dashed, `--MMDD`; integer
+    sequences), in any order of the ranges, and that denote the same collection of ranges: their normal forms
+    (`as_list()`) are the same list, and `x in interval` agrees for every instant `x` – it is membership in one of
+    the ranges as written -/
+theorem any_notations_of_same_ranges_agree {k : Kind} {l1 l2 : List (EpIn × EpIn)} {rs1 rs2 : List Range}
+    (h1 : Denotes k l1 rs1) (h2 : Denotes k l2 rs2)
+    (hp : rs1.Perm rs2) :
+    ∃ iv, parseInterval k (.seq (l1.map fun n => .seq [n.1, n.2])) = .ok iv ∧
+      parseInterval k (.seq (l2.map fun n => .seq [n.1, n.2])) = .ok iv ∧
+      (∀ x, contains k iv x = contains k rs1 x) ∧ (∀ x, contains k iv x = contains k rs2 x) := by
+  have key : ∀ (l : List (EpIn × EpIn)) (rs : List Range), Denotes k l rs →
+      parseRanges k (l.map fun n => RangeIn.seq [n.1, n.2]) = .ok rs := fun _ _ h => h.parseRanges
+  have e : sortR rs1 = sortR rs2 :=
+    sorted_perm_unique _ _ (sortR_sorted _) (sortR_sorted _)
+      ((sortR_perm rs1).trans (hp.trans (sortR_perm rs2).symm))
+  refine ⟨sortR rs1, ?_, ?_, fun x => ?_, fun x => ?_⟩
+  · show (parseRanges k _).map sortR = _
+    rw [key l1 rs1 h1]; rfl
+  · show (parseRanges k _).map sortR = _
+    rw [key l2 rs2 h2, e]; rfl
+  · exact (sortR_perm rs1).any_eq
+  · exact ((sortR_perm rs1).trans hp).any_eq
+
+/-- the same for interval STRINGS in canonical notation with any accepted separator is `asString_roundtrip` and the
+    `range_separator_*` theorems; an endpoint string is the same endpoint inside a string range and inside a
+    sequence range: -/
+theorem endpoint_string_same_in_sequence_and_string_range {k : Kind} {a b : Ep} (ha : validEp k a = true)
+    (hb : validEp k b = true) :
+    parseRange k (.str (render k a ++ '/' :: render k b)) = parseRange k (.seq [.str (render k a), .str (render k b)]) := by
+  have h1 := range_separator_slash ha hb [] [] [] [] (by simp [blanks]) (by simp [blanks]) (by simp [blanks]) (by simp [blanks])
+  simp only [List.nil_append, List.append_nil] at h1
+  rw [h1]
+  simp only [parseRange, convert, convertStr_render ha, convertStr_render hb, Res.bind_ok]
+
 /-! ### tie to the source -/
 
 /-- the tables and regular expressions of the current source are the ones the model implements -/
@@ -536,6 +769,31 @@ example : tradCanon false [2020, 3, 1, 12, 0, 0, 0] = "1. Mar 2020 12:00:00".toL
 
 example : asString .date [([3, 1], [3, 1]), ([12, 10], [1, 15])] = "Mar 1; Dec 10 / Jan 15;".toList := by
   decide +kernel
+
+
+example : joinSp ["8:05".toList, "1984".toList, "Apr".toList, "1".toList] = "8:05 1984 Apr 1".toList ∧
+    ["1".toList, "8:05".toList, "Apr".toList, "1984".toList] ∈ perms ["8:05".toList, "1984".toList, "Apr".toList, "1".toList] ∧
+    (perms [1, 2, 3, 4]).length = 24 ∧ dayTokens 1 = ["1".toList, "01".toList] ∧ tHM 8 5 = "8:5".toList ∧
+    ymdName 'a' 'p' 'r' 1984 1 = "1984-apr-01".toList ∧ ymdBasic 1984 4 1 ++ 'T' :: tHMSb 8 5 0 = "19840401T080500".toList ∧
+    isoMD 4 1 = "--0401".toList := by decide +kernel
+
+example : ColonTime (tHM 8 5) [8, 5, 0, 0] := .hm (by decide) (by decide)
+
+example : IsoTime (pad 2 8) [8, 0, 0, 0] ∧ pad 2 8 = "08".toList := ⟨.hour (by decide), by decide⟩
+
+example : convertStr .datetime "1 8:05 Apr 1984".toList = .ok [1984, 4, 1, 8, 5, 0, 0] ∧
+    convertStr .datetime "19840401T08".toList = .ok [1984, 4, 1, 8, 0, 0, 0] ∧
+    convertStr .time "T07".toList = .ok [7, 0, 0, 0] ∧ convertStr .time "7".toList = .err .value ∧
+    parseWeekdays (.str "7 10".toList) = .ok [1, 7] ∧ parseWeekdays (.ints [0, 1, 7, 1]) = .ok [1, 7] ∧
+    parseWeekdays (.str "18".toList) = .err .value := by decide +kernel
+
+/-- KNOWN FINDING C13-digit-run-split (the library misreads instead of rejecting; the model mirrors it): the stray
+    `1` of `123:45` becomes the day of the month -/
+example : convertStr .datetime "jul 2028 123:45".toList = .ok [2028, 7, 1, 23, 45, 0, 0] := by decide +kernel
+
+example : Denotes .time [(.str "7:5".toList, .ints [8])] [([7, 5, 0, 0], [8, 0, 0, 0])] ∧
+    Denotes .time [(.str "T0705".toList, .str "08".toList)] [([7, 5, 0, 0], [8, 0, 0, 0])] := by
+  refine ⟨⟨⟨?_, ?_⟩, trivial⟩, ⟨⟨?_, ?_⟩, trivial⟩⟩ <;> decide +kernel
 
 end Edzed.Interval
 
